@@ -30,6 +30,10 @@ type Case struct {
 	Perturb uint64 `json:"perturb,omitempty"`
 	// Graph, if set, is used instead of lowering Prog (hand-built shapes).
 	Graph *gen.Graph `json:"graph,omitempty"`
+	// IDStyle selects how node / flow ids look (gen.B.Style): ids that are
+	// prefixes / suffixes of each other, differ only in case, carry dots,
+	// dashes and non-ASCII letters.
+	IDStyle int `json:"idStyle,omitempty"`
 	// Rank, if set, orders the pending set (by rank, then request sequence)
 	// instead of the node id; used to address the same logical task in two
 	// different lowerings of one program.
@@ -130,7 +134,7 @@ func (c *Case) BuildProgram() (*gen.Program, *gen.Lowered) {
 	if c.Graph != nil {
 		return &gen.Program{G: c.Graph, DefaultLang: c.Lang, DeclSeed: c.DeclSeed}, nil
 	}
-	lw := gen.Lower(c.Prog)
+	lw := gen.LowerStyle(c.Prog, c.IDStyle)
 	return &gen.Program{G: lw.G, DefaultLang: c.Lang, DeclSeed: c.DeclSeed}, lw
 }
 
